@@ -156,6 +156,7 @@ pub fn parse_cmd(line: &str) -> Option<Cmd> {
             for i in 0..4 {
                 s.dbg[i] = *d.get(i)? == b'1';
             }
+            s.stale = d.get(4) == Some(&b'1');
             s.sdur = hx(t.get(12)?)?;
             s.smax = hx(t.get(13)?)?;
             s.scur = hx(t.get(14)?)?;
